@@ -30,7 +30,7 @@ import (
 // ---------------------------------------------------------------------------
 // environment
 
-var allModels = []interface{}{&SP{}, &SK{}, &IP{}, &IK{}, &CP{}, &CK{}, &DP{}, &DK{}, &Dog{}, &Toy{}, &Node{}, &MR{}, &ML{}, &XL{}, &GP{}, &NK{}, &NT{}}
+var allModels = []interface{}{&SP{}, &SK{}, &IP{}, &IK{}, &CP{}, &CK{}, &DP{}, &DK{}, &Dog{}, &Toy{}, &RO{}, &RK{}, &RN{}, &Node{}, &MR{}, &ML{}, &XL{}, &GP{}, &NK{}, &NT{}}
 
 type joinInfo struct {
 	table string
@@ -154,11 +154,25 @@ func buildFamilies(e *h.Env) {
 	}
 
 	j1 := joinTableOf(e, &ML{}, "Rights")
-	m2m := newM2M("m2m", "c11_ml", []string{"id"}, T(ML{}), j1.table, j1.left, j1.right)
+	m2m := newM2M("m2m", "c11_ml", []string{"id"}, T(ML{}), j1.table, j1.left, j1.right, false)
 	m2m.stdChecks(m2m.Dirs[0], "Rights", "", false)
 	j2 := joinTableOf(e, &XL{}, "Rights")
-	xm2m := newM2M("xm2m", "c11_xl", []string{"k1", "k2"}, T(XL{}), j2.table, j2.left, j2.right)
+	xm2m := newM2M("xm2m", "c11_xl", []string{"k1", "k2"}, T(XL{}), j2.table, j2.left, j2.right, false)
 	xm2m.stdChecks(xm2m.Dirs[0], "Rights", "", false)
+
+	// referenced key = non-primary column `code` (tags foreignKey / references / joinForeignKey ...)
+	j3 := joinTableOf(e, &RO{}, "Rights")
+	refTables := []string{"c11_ro", "c11_rk", "c11_rn", "c11_mr", j3.table}
+	ref := newBip(bipCfg{name: "ref", lt: "c11_ro", rt: "c11_rk", lk: []string{"code"}, rk: []string{"owner_code"},
+		lTyp: T(RO{}), rTyp: T(RK{}), many: "Kids", one: "One", bel: "Owner", idFromSeq: true, tables: refTables})
+	ref.stdChecks(ref.Dirs[0], "Kids", "One", true)
+	ref.stdChecks(ref.Dirs[1], "", "Owner", true)
+	refpoly := newBip(bipCfg{name: "refpoly", lt: "c11_ro", rt: "c11_rn", lk: []string{"code"}, rk: []string{"owner_id"},
+		lTyp: T(RO{}), rTyp: T(RN{}), many: "Notes", one: "Note1", poly: true, idFromSeq: true, tables: refTables})
+	refpoly.stdChecks(refpoly.Dirs[0], "Notes", "Note1", true)
+	refm2m := newM2M("refm2m", "c11_ro", []string{"code"}, T(RO{}), j3.table, j3.left, j3.right, true)
+	refm2m.Tables = refTables
+	refm2m.stdChecks(refm2m.Dirs[0], "Rights", "", false)
 
 	nest := newNest()
 	{
@@ -188,7 +202,7 @@ func buildFamilies(e *h.Env) {
 		nest.preload(nk, "Preload(clause.Associations)", func(db *gorm.DB) *gorm.DB { return db.Preload(clause.Associations) },
 			[]Exp{{"GP", ""}, {"Toys", ""}}, none, shSlice)
 	}
-	families = []*Family{str, intf, css, csi, poly, self, m2m, xm2m, nest}
+	families = []*Family{str, intf, css, csi, poly, self, m2m, xm2m, nest, ref, refpoly, refm2m}
 	for _, f := range families {
 		famByName[f.Name] = f
 	}
@@ -278,7 +292,7 @@ type opt struct {
 
 func (p *Part) childOptions(L []K) []opt {
 	var dog, cat *string
-	if p.Fam.Name == "poly" {
+	if p.Fam.Poly {
 		dog, cat = sp("dog"), sp("cat")
 	}
 	n := 1
@@ -291,7 +305,7 @@ func (p *Part) childOptions(L []K) []opt {
 	for _, l := range L {
 		out = append(out, opt{l, dog})
 	}
-	if p.Fam.Name == "poly" {
+	if p.Fam.Poly {
 		for _, l := range L {
 			out = append(out, opt{l, cat})
 		}
@@ -312,7 +326,7 @@ func (p *Part) each(yield func(*Graph) bool) {
 			if !p.eachSelf(kl, yield) {
 				return
 			}
-		case "m2m", "xm2m":
+		case "m2m", "xm2m", "refm2m":
 			if !p.eachM2M(kl, yield) {
 				return
 			}
@@ -557,6 +571,14 @@ var (
 	)
 )
 
+// codes of the "ref" families: the owner ids are 1, 2, 3 (= seq), so the codes
+// "1", "2", "3" are the text of ANOTHER owner's id
+var refAlpha = []string{"1", "2", "3", "a_b", "nil", "a"}
+var (
+	ref12 = lists([]K{kk("2"), kk("1")}, []K{kk("2"), kk("a_b")}, []K{kk("nil"), kk("1")}, []K{kk("1")}, []K{kk("3")})
+	ref3  = lists([]K{kk("2"), kk("a_b"), kk("1")}, []K{kk("3"), kk("1"), kk("2")}, []K{kk("nil"), kk("3"), kk("a")})
+)
+
 func coreOf(f *Family) []*Check {
 	var out []*Check
 	for _, c := range f.Checks {
@@ -608,6 +630,14 @@ func parts(tier string) []*Part {
 		add(&Part{Name: "css/S3", Fam: f["css"], KeyLists: css3, MaxC: 2, DelMode: 1, Fault: 1})
 		add(&Part{Name: "m2m/S3", Fam: f["m2m"], KeyLists: single3, MinC: 2, MaxC: 2, DelMode: 1, Fault: 1})
 		add(&Part{Name: "xm2m/S3", Fam: f["xm2m"], KeyLists: css3, MinC: 2, MaxC: 2, DelMode: 1, Fault: 1})
+		// referenced key = non-primary column whose values look like other owners' ids
+		uR := tuples1(refAlpha)
+		add(&Part{Name: "ref/K", Fam: f["ref"], KeyLists: cat(ordered(uR, 1), ordered(uR, 2)), MaxC: 2, DelMode: 1, CoreOnly: true})
+		add(&Part{Name: "ref/S", Fam: f["ref"], KeyLists: cat(ref12[:2], ref3[:2]), MaxC: 2, DelMode: 2})
+		add(&Part{Name: "refpoly/K", Fam: f["refpoly"], KeyLists: cat(ordered(uR, 1), ordered(uR, 2)), MaxC: 2, DelMode: 1, CoreOnly: true})
+		add(&Part{Name: "refpoly/S", Fam: f["refpoly"], KeyLists: cat(ref12[:2], ref3[:1]), MaxC: 2, DelMode: 1})
+		add(&Part{Name: "refm2m/K", Fam: f["refm2m"], KeyLists: cat(ordered(uR, 1), ordered(uR, 2)), MinC: 1, MaxC: 2, DelMode: 0, CoreOnly: true})
+		add(&Part{Name: "refm2m/S", Fam: f["refm2m"], KeyLists: cat(ref12[:2], ref3[:1]), MinC: 1, MaxC: 2, DelMode: 1})
 		// F parts: small graphs on which cursor faults are explored for every check of the family
 		add(&Part{Name: "str/F", Fam: f["str"], KeyLists: single12[3:4], MaxC: 2, DelMode: 2, Fault: 2})
 		add(&Part{Name: "int/F", Fam: f["int"], KeyLists: int12[2:3], MinC: 1, MaxC: 2, DelMode: 1, Fault: 1})
@@ -636,6 +666,13 @@ func parts(tier string) []*Part {
 	add(&Part{Name: "m2m/S", Fam: f["m2m"], KeyLists: cat(single12, single3), MaxC: 3, DelMode: 1, Fault: 1})
 	add(&Part{Name: "xm2m/K", Fam: f["xm2m"], KeyLists: cat(ordered(u2, 1), ordered(u2, 2)), MinC: 1, MaxC: 2, DelMode: 1, CoreOnly: true})
 	add(&Part{Name: "xm2m/S", Fam: f["xm2m"], KeyLists: cat(css12, css3), MaxC: 3, DelMode: 1, Fault: 1})
+	uR := tuples1(refAlpha)
+	add(&Part{Name: "ref/K", Fam: f["ref"], KeyLists: cat(ordered(uR, 1), ordered(uR, 2), ordered(uR, 3)), MaxC: 3, DelMode: 1, CoreOnly: true})
+	add(&Part{Name: "ref/S", Fam: f["ref"], KeyLists: cat(ref12, ref3), MaxC: 3, DelMode: 2, Fault: 1})
+	add(&Part{Name: "refpoly/K", Fam: f["refpoly"], KeyLists: cat(ordered(uR, 1), ordered(uR, 2), ordered(uR, 3)), MaxC: 2, DelMode: 1, CoreOnly: true})
+	add(&Part{Name: "refpoly/S", Fam: f["refpoly"], KeyLists: cat(ref12, ref3), MaxC: 3, DelMode: 2, Fault: 1})
+	add(&Part{Name: "refm2m/K", Fam: f["refm2m"], KeyLists: cat(ordered(uR, 1), ordered(uR, 2), ordered(uR, 3)), MinC: 1, MaxC: 2, DelMode: 1, CoreOnly: true})
+	add(&Part{Name: "refm2m/S", Fam: f["refm2m"], KeyLists: cat(ref12, ref3), MaxC: 3, DelMode: 1, Fault: 1})
 	add(&Part{Name: "str/F", Fam: f["str"], KeyLists: cat(single12[3:5], single3[:1]), MaxC: 2, DelMode: 2, Fault: 2})
 	add(&Part{Name: "int/F", Fam: f["int"], KeyLists: int12, MaxC: 2, DelMode: 2, Fault: 2})
 	add(&Part{Name: "css/F", Fam: f["css"], KeyLists: css12[3:8], MinC: 1, MaxC: 2, DelMode: 1, Fault: 2})
